@@ -86,7 +86,11 @@ GridAllocs(c)  == {[i \in Idx(c) |-> RNorm(c.p[1] * k[i], c.p[2] * Opt.GridN)] :
 VARIABLES pc, inp, ord, gs, rem, lvl, ps, aux, pw, mu
 vars == <<pc, inp, ord, gs, rem, lvl, ps, aux, pw, mu>>
 
-Bij(n)         == {o \in [1..n -> 1..n] : \A a, b \in 1..n : a # b => o[a] # o[b]}
+BijOf(n)       == {o \in [1..n -> 1..n] : \A a, b \in 1..n : a # b => o[a] # o[b]}
+\* permutations of 1..n as a table: a constant TLC evaluates once (BijOf inside the invariants was
+\* measured to dominate the run time for n = 4)
+BijTab         == [n \in 1..4 |-> BijOf(n)]
+Bij(n)         == BijTab[n]
 Descending(g, o) == \A k \in 1..(Len(g) - 1) : ~QLt(g[o[k]], g[o[k + 1]])
 Ascending(g, o)  == \A k \in 1..(Len(g) - 1) : ~QLt(g[o[k + 1]], g[o[k]])
 SortOrders(g)  == {o \in Bij(Len(g)) : IF Dev.AscendingSort THEN Ascending(g, o) ELSE Descending(g, o)}
@@ -184,7 +188,9 @@ KKT     == Done => pw = Pour(inp, mu)
 MatchesOptimum == Done => pw = OptP(inp) /\ mu = OptMu(inp)
 WaterLevelUnique == Done => \A m \in Candidates(inp) : IsWaterLevel(inp, m) => m = OptMu(inp)
 
-ASmall(c, lim) == \A i \in Idx(c) : QLe(A(c, i), lim)
+\* magnitude guard for the product comparisons: every a_i = g_i Es / N0 lies in [1/lim, lim]
+\* (lim = 0: never evaluated).  Found by running: outside it the exact products leave 32 bits.
+ASmall(c, lim) == lim[1] > 0 /\ \A i \in Idx(c) : QLe(A(c, i), lim) /\ QLe(RInv(A(c, i)), lim)
 \* no allocation on the P/GridN grid reaches the product of the returned allocation (strictly, unless equal)
 Optimal == (Done /\ N(inp) <= Len(Opt.OptAMax) /\ ASmall(inp, Opt.OptAMax[N(inp)])) =>
              LET best == RateProd(inp, pw)
